@@ -30,7 +30,8 @@ EXPLANATION = (
     'environment. R5: raw spec text is never split on a literal that is a lexer keyword outside '
     'the lexer. R6: the lexer enters its newline-ignoring state on `(` by push_state and leaves '
     'it on `)` by pop_state (nesting preserved). Decides these structural parts; the lexer\'s '
-    'comment/blank-line/indent arithmetic is value-level and not decided.')
+    'comment/blank-line/indent arithmetic is value-level and not decided.'
+    ' RD (decision drift, stonelint.conddrift): the tests of the functions this property is anchored in (stonelint.ownership) are compared with reference/conditions.json; a relation, polarity or connective changed over the same operands, or an operand purely added or dropped, is a violation; re-spellings and new or removed tests are not claimed.')
 ASSUMPTIONS = [
     'fields, tags and examples keep declaration order and namespace docs concatenate in file '
     'order by design (documented); they are not subject to R1',
@@ -337,3 +338,7 @@ def run(pm, ctx):
                                 for c in own_nodes(f.node)),
                   '%s hands the following line to %s' % (nm_, want), f.loc,
                   msg='%s no longer calls %s' % (nm_, want), key='C11-R6|%s' % f.qualname)
+
+    from ..conddrift import run_decisions
+    from ..ownership import OWN
+    run_decisions(pm, ctx, 'C11-RD', OWN['C11'])
